@@ -2,10 +2,35 @@
    [check_all] returns (index, code) for every bad case:
      code 1 = the implementation's observable differs from the model's,
      code 2 = the implementation's observable violates the property predicate (the spec_C17 predicates). *)
+From Coq Require Import String Ascii.
 From Coq Require Import List NArith Bool Arith.
 Import ListNotations.
 From Coq Require Import ZArith.
 From AnySync Require Export Model.Trie Model.PubSub Model.PubSubClient.
+
+(* compact byte-string literals of the client cases (one string literal per byte string parses much faster
+   than one numeral per byte): printable characters stand for themselves, '^' for the byte 0, "~hh" for the
+   byte with (lowercase) hex code hh *)
+Definition hexv (a : ascii) : N :=
+  let n := N_of_ascii a in if N.leb 97 n then (n - 87)%N else (n - 48)%N.
+
+Fixpoint bstr (s : string) : list N :=
+  match s with
+  | EmptyString => []
+  | String a r =>
+      if Ascii.eqb a "~"%char then
+        match r with
+        | String h (String l r') => (16 * hexv h + hexv l)%N :: bstr r'
+        | _ => []
+        end
+      else if Ascii.eqb a "^"%char then 0%N :: bstr r
+      else N_of_ascii a :: bstr r
+  end.
+
+(* the case files do not import Coq.Strings.String; this scope makes "..."%bstr a [string] literal there *)
+Declare Scope bstr_scope.
+Delimit Scope bstr_scope with bstr.
+String Notation string string_of_list_byte list_byte_of_string : bstr_scope.
 
 Inductive case :=
 (* one string through splitTopic / ValidateTopic / ValidatePattern / TopicOwner *)
